@@ -2,7 +2,7 @@
    "oast <node>"   node ::= V <hex example> <leaf>
                           | R <hex example> <n> <0|1 nullable> alt^n            alt ::= L <leaf> | o | a
                           | A <n> <min|-> <max|-> <0|1 nullable> node^n
-                          | O <n> <ap> <0|1 nullable> (<hex key> <0|1 optional> node)^n        ap ::= f | y | ti | tn | ts | tb
+                          | O <n> <ap> <0|1 nullable> (<hex key> <0|1 optional> node)^n        ap ::= f | y | ti | tn | ts | tb | w<hex type name>
    -> the Schema Object in a canonical spelling:
       L(<keywords of oasx, separated by ;>)   Y(nullable;[node,..])   A(mn=..;mx=..;nullable;[node,..])   O(req=[hexkey,..];ap=..;nullable;{hexkey:node,..}) *)
 From Coq Require Import String List ZArith NArith Bool.
@@ -14,7 +14,11 @@ Definition opt_z (t : bytes) : option (option Z) :=
 Definition ap_of_tok (t : bytes) : option apmode :=
   if beqb t B"f" then Some APFalse else if beqb t B"y" then Some APAny
   else if beqb t B"ti" then Some (APType OInteger) else if beqb t B"tn" then Some (APType ONumber)
-  else if beqb t B"ts" then Some (APType OString) else if beqb t B"tb" then Some (APType OBoolean) else None.
+  else if beqb t B"ts" then Some (APType OString) else if beqb t B"tb" then Some (APType OBoolean)
+  else match t with
+       | 119%N :: h => match unhex_dash h with Some n => ap_of_name n | None => None end        (* w<hex type name> *)
+       | _ => None
+       end.
 
 Fixpoint parse_snode (fuel : nat) (l : list bytes) : option (snode * list bytes) :=
   match fuel with
@@ -87,7 +91,10 @@ Definition show_oasx (o : oasx) : bytes :=
      (match x_enum o with Some items => [B"enum=" ++ join [44%N] (map hex items)] | None => [] end) ++
      (if x_nullable o then [B"nullable=true"] else [])).
 Definition show_ap (a : apmode) : bytes :=
-  match a with APFalse => B"f" | APAny => B"y" | APType t => B"t:" ++ show_otype t end.
+  match a with
+  | APFalse => B"f" | APAny => B"y" | APType t => B"t:" ++ show_otype t
+  | APNull => B"null" | APArray => B"array" | APObject => B"object" | APFormat f => B"t:string:" ++ f
+  end.
 Definition show_optz (name : bytes) (z : option Z) : list bytes := match z with Some v => [name ++ show_Z v] | None => [] end.
 Fixpoint show_otree (t : otree) : bytes :=
   match t with
